@@ -292,7 +292,9 @@ static int pad_pkcs1(bn_t m, size_t *p_len, size_t m_len, size_t k_len,
 						/* Remove padding and trailing zero. */
 						*p_len -= (m_len - 1);
 						bn_mod_2b(m, m, (k_len - *p_len) * 8);
-						result = (m_len > 0 ? RLC_OK : RLC_ERR);
+						/* PS has k_len - 3 - m_len octets, at least 8. */
+						result = (m_len > 0 && m_len + 11 <= k_len ?
+								RLC_OK : RLC_ERR);
 					}
 				}
 				break;
